@@ -81,6 +81,7 @@ structure Rule where
   tableIsNone : Bool
   schema : Option String
   schemaIsNone : Bool
+  qualified : Option String
   verdict : Bool
 
 def ruleOfJson (j : Json) : Rule :=
@@ -94,6 +95,7 @@ def ruleOfJson (j : Json) : Rule :=
     tableIsNone := getBoolD j "tableIsNone"
     schema := getStr j "schema"
     schemaIsNone := getBoolD j "schemaIsNone"
+    qualified := getStr j "qualified"
     verdict := getBoolD j "verdict" }
 
 def optMatch {α : Type} [BEq α] (want : Option α) (got : α) : Bool :=
@@ -107,8 +109,22 @@ def prefixMatch (p : Option String) (n : Option String) : Bool :=
   | some p, some n => p.isPrefixOf n
   | some _, none => false
 
+/-- `parent_names["schema_qualified_table_name"]` as `run_name_filters` computes it for the hook -/
+def qualifiedName (d : NameDesc) : Option String :=
+  match d.ty with
+  | .schema => none
+  | _ =>
+    let t := if d.ty == .table then d.name else d.table
+    match t with
+    | some t => if t.isEmpty then none else
+      some (match d.schema with
+        | some s => if s.isEmpty then t else s ++ "." ++ t
+        | none => t)
+    | none => none
+
 def Rule.matchesCommon (r : Rule) (name : Option String) (ty : Ty) (schema : Option String)
-    (table : Option String) : Bool :=
+    (table : Option String) (qualified : Option String := none) : Bool :=
+  (match r.qualified with | some q => qualified == some q | none => true) &&
   optMatch r.ty ty &&
   (match r.name with | some n => name == some n | none => true) &&
   (!r.nameIsNone || name.isNone) &&
@@ -125,7 +141,7 @@ def evalObj (rules : List Rule) (dflt : Bool) (d : ObjDesc) : Bool :=
   | none => dflt
 
 def evalName (rules : List Rule) (dflt : Bool) (d : NameDesc) : Bool :=
-  match rules.find? (fun r => r.matchesCommon d.name d.ty d.schema d.table) with
+  match rules.find? (fun r => r.matchesCommon d.name d.ty d.schema d.table (qualifiedName d)) with
   | some r => r.verdict
   | none => dflt
 
@@ -383,6 +399,9 @@ def handleC09 (op : String) (j : Json) : Option Json :=
       | some ds =>
         some (obj [("down", Json.arr (ds.map (fun d => rOpJ (view d))).toArray),
                    ("reversible", Json.bool (reversibleL ops)),
+                   ("up2", match populate ds with
+                     | some u2 => Json.arr (u2.map (fun d => rOpJ (view d))).toArray
+                     | none => Json.str "ValueError"),
                    ("kinds", strs ((kindsL ds).map kindToStr)),
                    ("expected", strs ((expectedDown (tagsL ops)).map kindToStr))])
   | "rev.viewEq" =>
